@@ -147,9 +147,9 @@ PROPS = {
                       "accepted sample is in the writer or among the at most N pending ones (inductive invariant DInv over all histories). faithful_under_any_write_faults: for EVERY "
                       "script of write results (ok / error without consuming / short count) and every sequence of Adds, the samples in the complete writes followed by the "
                       "pending ones are exactly the samples whose Add returned nil, once each and in order - a failing write discards nothing, a later successful flush "
-                      "delivers the pending samples exactly once, an Add that returned an error added nothing.",
-        "level_note": "The fault theorem is about Add histories of the (schema-unaware) streaming collector; explicit Flush/Reset calls between the Adds and the schema-aware "
-                      "variants under faults are checked by the oracle on every case of the fault stream. A short write leaves half a document in the byte log: recovery is stated over the "
+                      "delivers the pending samples exactly once, an Add that returned an error added nothing; dynamic_faithful_under_any_write_faults: the same for the schema-aware "
+                      "streaming collector (failing schema-change flushes included).",
+        "level_note": "The fault theorems are about Add histories; explicit Flush/Reset calls between the Adds are checked by the oracle on every case of the fault stream. A short write leaves half a document in the byte log: recovery is stated over the "
                       "fully successful writes.",
         "assumptions": ["documents shorter than 2^31 bytes"],
     },
